@@ -4,7 +4,14 @@ C03 — invariants and validity predicates used by the property theorems.
 state; the case generator of checks/props/c03.py keeps its histories inside the same predicates).
 -/
 import Tetl.C03.Session
+import Tetl.C07.Model
 namespace Tetl.C03
+
+/-- the configuration of the value-level variant model of C07 (`Tetl.C07.Cfg`: number of alternatives and the four
+    "all alternatives trivially …" bits of the `requires` clauses of variant.hpp) that belongs to an element kind of this
+    model: the same four tests, here derived from the per-member bits -/
+def cfgOf (n : Nat) (k : Kind) : Tetl.C07.Cfg :=
+  { n := n, trivCC := k.trivCC, trivMC := k.trivMC, trivCA := k.trivCA, trivMA := k.trivMA }
 
 /-- #constructed = #destroyed + #alive -/
 def Bal (m : Mem) : Prop := m.cnt.constructed = m.cnt.d + m.liveCount
@@ -90,16 +97,22 @@ structure VarInv (trk : Nat → Bool) (nalt : Nat) (s : St) : Prop where
 def varSpecified (trk : Nat → Bool) (m : Mem) (sl ix : Nat) : Bool :=
   !trk ix || (match m.slots[sl]? with | some (.live _ (some _)) => true | _ => false)
 
-def xvalid (trk : Nat → Bool) (nalt : Nat) (s : St) (t : Bool) : XOp → Bool
+/-- documented preconditions of the variant / optional / expected members.  Self-swap: the generic `swap(a, a)` is
+    `T temp(move(a)); a = move(a); a = move(temp);` — when the move constructor of the alternative type is trivial (leaves
+    `a` as it is) while its move assignment is user-provided, the second statement move-assigns a value-holding object to
+    itself, which like every self-move of a value-holding element is outside the valid histories; every other combination
+    of trait bits is inside. -/
+def xvalid (k : Kind) (trk : Nat → Bool) (nalt : Nat) (s : St) (t : Bool) : XOp → Bool
   | .emplace j _ | .emplaceCopy j _ | .emplaceMove j _ | .assignCopy j _ | .assignMove j _ => j < nalt
   | .optAssignCopy _ | .optAssignMove _ => 1 < nalt
   | .reset => 0 < nalt
   | .use => varSpecified trk s.mem (baseOf 1 t) (s.sz t)
+  | .swapSelf => k.mem == .co || k.tr.mc || !k.tr.ma
   | _ => true
 
 inductive XReach (k : Kind) (trk : Nat → Bool) (nalt : Nat) : St → Prop where
   | init : XReach k trk nalt (xinit trk)
-  | step {s s' : St} {t : Bool} {op : XOp} : XReach k trk nalt s → xvalid trk nalt s t op = true →
+  | step {s s' : St} {t : Bool} {op : XOp} : XReach k trk nalt s → xvalid k trk nalt s t op = true →
       xstep k trk s t op = .ok s' → XReach k trk nalt s'
 
 /-- the slot of a function wrapper with vtable code `c` -/
